@@ -8,6 +8,7 @@ pub fn dispatch(f: &[String]) -> String {
     match f[0].as_str() {
         "prog" => prog(&f[1], &f[2]),
         "pratt" => pratt(&f[1]),
+        "type" => types(f),
         other => format!("(bad-mode {other})"),
     }
 }
@@ -131,6 +132,148 @@ fn pratt(src: &str) -> String {
             .map_postfix(|lhs, op| format!("({} {:?})", lhs, op.as_rule()))
             .parse(pair.into_inner());
         format!("[{}] {}", toks.join(" "), tree)
+    }));
+    match r {
+        Ok(s) => s,
+        Err(_) => format!("(panic {})", take_panic()),
+    }
+}
+
+
+fn parse_ty(src: &str) -> Result<Type, String> {
+    use std::str::FromStr;
+    match panic::catch_unwind(AssertUnwindSafe(|| Type::from_str(src))) {
+        Err(_) => Err(format!("(parse-panic {})", take_panic())),
+        Ok(Err(_)) => Err("(no-parse)".into()),
+        Ok(Ok(t)) => Ok(t),
+    }
+}
+
+fn opt_ty(t: Option<Type>) -> String {
+    t.map_or("none".into(), |t| format!("(some {})", canon::ty(&t)))
+}
+fn opt_tys(t: Option<std::sync::Arc<[Type]>>) -> String {
+    t.map_or("none".into(), |ts| {
+        format!("(some {})", ts.iter().map(canon::ty).collect::<Vec<_>>().join(" "))
+    })
+}
+fn opt_n(t: Option<usize>) -> String {
+    t.map_or("none".into(), |n| format!("(some {n})"))
+}
+
+/// `type rel A B`, `type q A`, `type rt A K`, `type det A K`
+fn types(f: &[String]) -> String {
+    use std::collections::HashSet;
+    use std::str::FromStr;
+    let r = panic::catch_unwind(AssertUnwindSafe(|| match f[1].as_str() {
+        "rel" => {
+            let (a, b) = match (parse_ty(&f[2]), parse_ty(&f[3])) {
+                (Ok(a), Ok(b)) => (a, b),
+                (Err(e), _) | (_, Err(e)) => return e,
+            };
+            format!(
+                "(rel {} {} eq={} ab={} ba={} {} {})",
+                canon::ty_ordered(&a),
+                canon::ty_ordered(&b),
+                (a == b) as u8,
+                a.matches(&b) as u8,
+                b.matches(&a) as u8,
+                canon::ty(&a.clone().concat(b.clone())),
+                canon::ty(&a.conjoin(&b))
+            )
+        }
+        "q" => {
+            let a = match parse_ty(&f[2]) {
+                Ok(a) => a,
+                Err(e) => return e,
+            };
+            format!(
+                "(q {} (index_result {}) (element_type {}) (return_type {}) (params {}) (mut_element_type {}) (is_function {}) (is_tuple {}) (is_mut {}) (tuple_len {}) (min_tuple_len {}) (flatten_tuple {}) (iter_element {}) (tuple_element_at0 {}) (tuple_element_at1 {}) (field_type_a {}) (field_type_b {}) (has_field_a {}) (can_be_indexed {}) (is_iterator {}) (is_struct {}))",
+                canon::ty_ordered(&a),
+                opt_ty(a.index_result()),
+                opt_ty(a.element_type()),
+                opt_ty(a.return_type()),
+                opt_tys(a.params()),
+                opt_ty(a.mut_element_type()),
+                a.is_function(),
+                a.is_tuple(),
+                a.is_mut(),
+                opt_n(a.tuple_len()),
+                opt_n(a.min_tuple_len()),
+                opt_tys(a.clone().flatten_tuple()),
+                opt_ty(a.iter_element()),
+                opt_ty(a.tuple_element_at(0)),
+                opt_ty(a.tuple_element_at(1)),
+                opt_ty(a.field_type("a")),
+                opt_ty(a.field_type("b")),
+                a.has_field("a"),
+                a.can_be_indexed(),
+                a.is_iterator(),
+                a.is_struct()
+            )
+        }
+        // print K times, re-parse each print, compare with the original
+        "rt" => {
+            let a = match parse_ty(&f[2]) {
+                Ok(a) => a,
+                Err(e) => return e,
+            };
+            let k: usize = f[3].parse().unwrap_or(3);
+            let mut bad = Vec::new();
+            let mut prints = HashSet::new();
+            for _ in 0..k {
+                // a fresh parse gives fresh hash seeds, hence possibly another print order
+                let fresh = Type::from_str(&f[2]).unwrap();
+                let text = fresh.to_string();
+                prints.insert(text.clone());
+                match Type::from_str(&text) {
+                    Ok(t) if t == a && a == t => {}
+                    Ok(t) => bad.push(format!("(reparsed-differs {} {})", canon::string(&text), canon::ty(&t))),
+                    Err(_) => bad.push(format!("(unparsable {})", canon::string(&text))),
+                }
+            }
+            let mut ps: Vec<_> = prints.into_iter().collect();
+            ps.sort();
+            format!(
+                "(rt {} (prints {}) (bad {}))",
+                canon::ty(&a),
+                ps.iter().map(|p| canon::string(p)).collect::<Vec<_>>().join(" "),
+                bad.join(" ")
+            )
+        }
+        // determinism of comparisons: K fresh parses, all pairwise equal, match themselves, one set entry
+        "det" => {
+            let k: usize = f[3].parse().unwrap_or(3);
+            let ts: Vec<Type> = match (0..k).map(|_| parse_ty(&f[2])).collect::<Result<_, _>>() {
+                Ok(v) => v,
+                Err(e) => return e,
+            };
+            let mut eq_fail = 0;
+            let mut match_fail = 0;
+            for x in &ts {
+                for y in &ts {
+                    if x != y {
+                        eq_fail += 1;
+                    }
+                    if !x.matches(y) {
+                        match_fail += 1;
+                    }
+                }
+            }
+            let set: HashSet<Type> = ts.iter().cloned().collect();
+            let cell_fail = {
+                let m: Vec<Type> = ts.iter().map(|t| Type::Mut(t.clone().into())).collect();
+                m.iter().filter(|x| !x.matches(&m[0])).count()
+            };
+            format!(
+                "(det eq_fail={} match_fail={} set_size={} cell_fail={})",
+                eq_fail,
+                match_fail,
+                set.len(),
+                cell_fail
+            )
+        }
+        other => format!("(bad-type-op {other})"),
     }));
     match r {
         Ok(s) => s,
